@@ -5,7 +5,7 @@ import os
 # which of the repairs of C10-F1 (637ae67), C10-F2 (c971513), C10-F3 (e0dc5e2) the tree under test contains ("1" = present).
 # Default 111 = /repo as it is now.  VERIF_C10_FIXED=000 selects the model of the originally pinned code (for experiments against an
 # old checkout only; with the findings recorded as fixed, its defect behaviour is then reported as VIOLATION, as it should be).
-_FIXED = (os.environ.get("VERIF_C10_FIXED", "11100") + "11100")[:5]
+_FIXED = (os.environ.get("VERIF_C10_FIXED", "11111") + "11111")[:5]
 _CHECK = "check (mkfx %s)" % " ".join("true" if d == "1" else "false" for d in _FIXED)
 
 OVERLAY = {
@@ -37,18 +37,18 @@ P = {
     "theorems": ["C10_ttl_within_lifetime", "C10_store_positive", "C10_finalizer_token_not_expired", "C10_zero_disables",
                  "C10_config_only_shortens", "C10_rule_level_ttl_bounds",
                  "C10_http_within_rfc_freshness", "C10_http_not_stored_when_stale", "C10_http_not_stored_without_lifetime",
-                 "C10_F4_inside_guard", "C10_F4_refuted",
+                 "C10_F4_pinned_bound", "C10_F4_pinned_refuted",
                  "C10_no_hit_after_expiry", "C10_no_hit_after_expiry_http",
-                 "C10_no_hit_after_expiry_any_rule", "C10_hit_age_within_ttl_in_force", "C10_F5_refuted",
+                 "C10_no_hit_after_expiry_any_rule", "C10_hit_age_within_ttl_in_force", "C10_F5_pinned_refuted",
                  "C10_F1_pinned_refuted", "C10_F1_history_pinned_refuted", "C10_F2_pinned_refuted", "C10_F3_pinned_refuted",
                  "C10_nonvacuous", "C10_check_sound", "C10_check_sound_fixed", "C10_cache_expiry_enforced"],
     "streams": [{
         "name": "all", "pkg": "./internal/zzverif/c10", "test": "TestVerifC10", "overlay": OVERLAY,
         "eval_module": "Run.Eval_C10", "check_term": _CHECK,
-        "n_quick": 1200, "n_thorough": 30000, "findings": {4: "C10-F4", 5: "C10-F5"}, "shard": 300,
+        "n_quick": 1200, "n_thorough": 30000, "findings": {}, "shard": 300,
     }],
-    "rule": ("one overlay-only driver using exported identifiers of /repo only; corpus (witnesses of the repaired C10-F1/F2/F3 and of the "
-            "open C10-F4/F5, chains, hit paths) first, then five case kinds: "
+    "rule": ("one overlay-only driver using exported identifiers of /repo only; corpus (witnesses of the repaired C10-F1..F5, "
+            "chains, hit paths) first, then five case kinds: "
             "exec (55%): all seven mechanisms (client credentials through Config.Token and through the oauth2_client_credentials "
             "finalizer; generic sessions with integer and RFC 3339 `time_format` expiries; JWKs without certificate, with a self-signed "
             "leaf, with x5c chains [leaf, root] whose root expires long after / shortly after / before the leaf, validate_jwk false and "
@@ -103,29 +103,34 @@ P = {
         "(so conservative changes of leeways/defaults and C11's GET/HEAD/Vary gates raise no alarm), never more",
     ],
     "level_text": ("Proof (kernel-checked, no axioms) over all expiry/now/ttl relations in Z, all header values and all request histories "
-                  "(induction, both cache semantics): every ttl a mechanism hands to the cache is positive, at most the ttl in force for the "
-                  "rule (rule level, else prototype) and ends strictly before the credential's / leaf certificate's / token's own expiry even "
-                  "if applied 4 s late; a ttl of zero disables lookup and store; for all max-age/Expires/Date/Age values what the round "
-                  "tripper stores lies within the RFC 7234 remaining freshness (lifetime minus current age; transcribed independently of the "
-                  "model) -- outside the guard of the open finding C10-F4; no hit in any history at or after expiry, also when requests run "
-                  "under different rules; where the cache key contains the ttl a hit under ttl c is at most c old (open finding C10-F5 for the "
-                  "three authenticators and client credentials, witness proved); both cache semantics enforce expiry for all Set/Get "
+                  "(induction, both cache semantics), for the code with the repairs of C10-F1..F5, without guards: every ttl a mechanism "
+                  "hands to the cache is positive, at most the ttl in force for the rule (rule level, else prototype) and ends strictly "
+                  "before the credential's / leaf certificate's / token's own expiry even if applied 4 s late; a ttl of zero disables lookup "
+                  "and store; for all max-age/Expires/Date/Age values what the round tripper stores lies within the RFC 7234 remaining "
+                  "freshness (lifetime minus current age; transcribed independently of the model) and nothing is stored when that is not "
+                  "positive; no hit in any history at or after expiry, also when requests run under different rules; a hit under a configured "
+                  "ttl c is at most c old (the ttl is part of every cache key); both cache semantics enforce expiry for all Set/Get "
                   "sequences; the evaluator's property predicate follows from refinement-correspondence for every well-formed case "
-                  "(C10_check_sound).  The model is tied to the code by ~1250 (quick) / 30000 (thorough) cases per run through the real "
-                  "mechanism factory + WithConfig + Execute, Config.Token, the RFC 7234 round tripper and both real cache backends."),
+                  "(C10_check_sound_fixed).  What the code did before each repair is kept as C10_F1..F5_pinned_refuted.  The model is tied to "
+                  "the code by ~1250 (quick) / 30000 (thorough) cases per run through the real mechanism factory + WithConfig + Execute, "
+                  "Config.Token, the RFC 7234 round tripper and both real cache backends."),
     "level_note": ("Trusted: Coq kernel/vm_compute; the correspondence harness; cachecontrol's cachability verdict, miniredis, ttlcache as "
-                  "observed.  Spec decisions: `their certificate's expiry` = the leaf (x5c[0]) certificate's NotAfter (chains are generated, the "
-                  "other certificates must not influence the ttl); validity leeway 10 s for introspection and sessions, 0 for keys and tokens; "
-                  "`RFC 7234 freshness lifetime` = lifetime minus current age per RFC 7234 4.2, not what the library computes.  Repaired: "
-                  "C10-F1/F2/F3 (637ae67, c971513, e0dc5e2; reverting any is a VIOLATION).  Open, observed on every run, with guards and "
-                  "candidate repairs: C10-F4 (Age / old Date / unparsable Expires ignored; fixes/C10-F4.diff, model switch fx4) and C10-F5 "
-                  "(authenticator and client-credential cache keys lack the ttl, so a rule with a short cache_ttl is served an older entry; "
-                  "fixes/C10-F5.diff, fx5); VERIF_C10_FIXED=11111 selects the fully repaired model.  Not covered: rueidis client-side "
-                  "caching, oauth2 metadata-endpoint http cache and verifyTokenWithoutKID paths, evaluator soundness for mixed-rule cases."),
+                  "observed.  SPEC DECISIONS (limits of what is proved): (1) `cached verification keys are not used past their "
+                  "certificate's expiry` is read as the LEAF certificate (x5c[0], the one that contains the key): its NotAfter bounds the JWK "
+                  "cache ttl; chains are generated and the other certificates must not influence the ttl, but an intermediate expiring before "
+                  "the leaf is not modelled as ending the key's validity.  (2) The validity leeway granted on top of a credential's expiry is "
+                  "the FIXED default of 10 s for introspection responses and sessions (0 for keys and tokens); a configured `validity_leeway` "
+                  "is not varied -- the theorems prove `strictly before exp`, which is within any non-negative leeway.  (3) `RFC 7234 "
+                  "freshness lifetime` = lifetime minus current age per RFC 7234 4.2 (max-age, else Expires-Date, unparsable Expires = "
+                  "expired; age = max(Age, now-Date)), not what the library computes.  Repaired findings, all replayed on the real code and "
+                  "now regression witnesses of the corpus (reverting any commit is reported as a VIOLATION with the witness as replay): "
+                  "C10-F1 637ae67, C10-F2 c971513, C10-F3 e0dc5e2, C10-F4 a3cbbb3 (Age / old Date / unparsable Expires), C10-F5 8647e06 "
+                  "(cache keys without the ttl).  Not covered: rueidis client-side caching, oauth2 metadata-endpoint http cache and "
+                  "verifyTokenWithoutKID paths, evaluator soundness for mixed-rule cases, the cachability verdict (oracle)."),
     "assumptions": [
         "durations fit in int64 nanoseconds (time.Duration); the theorems are over unbounded Z",
         "the delay between computing a ttl and the cache applying it is at most 4 s (max_delay) for the strict-before-expiry theorems",
         "Age and apparent age are whole seconds; Date/Expires have one-second resolution (RFC 7231)",
-        "the check_term expects /repo's state of repairs (VERIF_C10_FIXED defaults to 11100: F1-F3 repaired, F4/F5 open)",
+        "the check_term expects /repo's state of repairs (VERIF_C10_FIXED defaults to 11111: C10-F1 .. C10-F5 repaired)",
     ],
 }
